@@ -5,12 +5,14 @@
 import Pk.Driver.C17
 import Pk.Driver.Mgr
 import Pk.Driver.C15
+import Pk.Driver.C11
 import Pk.Driver.C19
 
 def main (args : List String) : IO UInt32 := do
   match args with
   | ["c17"] => Pk.Driver.C17.main; return 0
   | ["c19"] => Pk.Driver.C19.main; return 0
+  | ["c11"] => Pk.Driver.C11.main; return 0
   | ["c15"] => Pk.Driver.C15.main; return 0
   | "mgr" :: convs => Pk.Driver.Mgr.main convs; return 0
   | _ =>
